@@ -103,3 +103,12 @@ Theorem C13_source_link_ranges : forall len, (28 <= len)%Z ->
   Gen.go_LinkFrame_LinkDataWithAuth len = DOk [12; len]%Z.
 Proof. exact go_link_ranges. Qed.
 Print Assumptions C13_source_link_ranges.
+
+(* parsePingHeader as translated from the source (library verdicts as oracles): it splits every
+   message where the model's ping_split does, refuses where the model refuses, and evaluates no
+   index or slice expression out of bounds — so C13_ping_split_no_panic / _bounds are statements
+   about the Go source *)
+Theorem C13_source_ping_header_is_model : forall d o1 o2, bytes_ok d ->
+  dres_ping (length d) (Gen.go_parsePingHeader d o1 o2) = forget_code (ping_split (length d) (nth 1 d 0) (o1 && o2)).
+Proof. intros d o1 o2 H. apply go_ping_header_is_model; [exact H | reflexivity]. Qed.
+Print Assumptions C13_source_ping_header_is_model.
